@@ -15,7 +15,7 @@ CONSTANTS
   MaxCmds = 2
   Cmds = {"SeekTo", "SeekBy", "SetLoop", "SetRate"}
   SeekRevives = TRUE
-  SeekByHeard = FALSE
+  SeekByHeard = TRUE
   Wide = FALSE
 INVARIANTS Dump PropertyHolds NoPanic TypeOK IndexInSlice WindowInSlice StoppedMeansDrained NoHang
 CHECK_DEADLOCK FALSE
